@@ -354,7 +354,15 @@ pub fn exec(
     };
     if let Some(e) = &out.closed {
         trace.push(format!("t={} {} -> decode error {}", m.now, cmd.brief(), e));
-        return Err(Viol::new(&["C09", "C10"], "valid-frame-rejected", format!("well-formed {} rejected by the decoder: {}", cmd.brief(), e)));
+        let mut tags = vec!["C09", "C10", "C12"];
+        tags.push(match cmd {
+            Cmd::Concat { .. } => "C06",
+            Cmd::Store { op: o, .. } if *o != op::SET => "C06",
+            Cmd::Counter { .. } => "C07",
+            Cmd::Delete { .. } | Cmd::Flush { .. } => "C08",
+            _ => "C01",
+        });
+        return Err(Viol::new(&tags, "valid-frame-rejected", format!("well-formed {} rejected by the decoder: {}", cmd.brief(), e)));
     }
     if out.handled.len() != 1 || conn.buf.len() != 0 {
         return Err(Viol::new(
